@@ -1,7 +1,7 @@
 //! Key-keeper rig checks: C09 (and later C10 C12 C16, the host-reply part of C13, own-call part of C04).
 
 use gpa_verif::keeper::KeeperRig;
-use gpa_verif::props::{c09, c12, c13};
+use gpa_verif::props::{c09, c10, c12, c13};
 use gpa_verif::report::{Known, Params, Stats};
 use gpa_verif::runner::Drive;
 use std::time::Instant;
@@ -33,6 +33,12 @@ fn main() {
             let n = params.share(if th { 12_000 } else { 320 });
             Drive { params: &params, stats: &mut stats, known: &known }.run("c09.convergence", 9, c09::strategy(), n, |c, s| c09::eval(&rig, c, s));
             (c09::RULE.into(), assumptions)
+        }
+        "C10" => {
+            gpa_verif::runner::SHRINK_ITERS.store(3000, std::sync::atomic::Ordering::Relaxed);
+            let n = params.share(if th { 400_000 } else { 8_000 });
+            Drive { params: &params, stats: &mut stats, known: &known }.run("c10.schedules", 10, c10::strategy(), n, |c, s| c10::eval(&rig, c, s));
+            (c10::RULE.into(), assumptions)
         }
         "C12" => {
             let env = std::cell::RefCell::new(c12::setup(&rig));
